@@ -626,7 +626,6 @@ func genC02(g *Gen) {
 				for _, c := range []int{1 << 15, 1 << 16, 1 << 20} {
 					try(c - 1)
 					try(c)
-					try(c + 31)
 				}
 				// the 1-bits whose word index is next to 2^15 and 2^16: i = (1-bits per word) * word index
 				per := cnt / n
@@ -635,13 +634,14 @@ func genC02(g *Gen) {
 						for _, dw := range []int{-1, 0, 1} {
 							try(per*(wi+dw) - 1)
 							try(per * (wi + dw))
-							try(per*(wi+dw) + 31)
-							try(per*(wi+dw) + 33)
+							if dw == 0 {
+								try(per*wi + 33)
+							}
 						}
 					}
 				}
 				if f.name == "behindzeros" {
-					for i := 0; i < cnt; i += 7 {
+					for i := 0; i < cnt; i += 17 {
 						try(i)
 					}
 				}
